@@ -94,7 +94,7 @@ CHECKS = {
         technique="Coq proof (Permutation/NoDup reasoning over any shuffle, Q arithmetic for units, real analysis for the metrics) on a model whose unit table is translated from the source + vm_compute correspondence",
         design="5/C06"),
     "C10": dict(
-        text=("23 theorems (closed under the global context) about an executable transition system of imap (Submit / Complete i / "
+        text=("28 theorems (closed under the global context) about an executable transition system of imap (Submit / Complete i / "
               "Yield over a FIFO deque bounded by max_workers), quantified over EVERY trace the system accepts, i.e. every relative "
               "timing, worker count and result pattern: invariant on all reachable states, yielded files always a prefix of the "
               "stream and equal to the specification at termination, at most max_workers futures queued, the submitted tasks never "
@@ -102,15 +102,21 @@ CHECKS = {
               "(imap_lazy, imap_submit_waits_for_consumer), exactly-once, progress and termination (<= 3n actions), propagation of "
               "the first exception after all earlier results, only read errors under error_to_warning become warning + None; map = "
               "the same system with an unbounded queue; collect drops None contents in order; the align loop loads each unique "
-              "secondary once in order of first appearance, delivers every matched pair and evicts after the last use. Bundles read "
-              "through the nested collect have an explicit model (bundle_task_result, bundle_refines_task, "
-              "bundle_collect_any_member_order, bundle_read_warning_local): a bundle is warning + None iff error_to_warning and a "
-              "member is unreadable (or nothing is left to hand on), otherwise the function applied to the members' contents in "
-              "member order, independent of the completion order of the member reads. Tie: the real FileSet.map / imap / collect / "
-              "icollect / align with FORCED completion orders (all orders for <= 4 files quick / <= 6 thorough, failing readers on "
-              "every subset, None contents, all member patterns and member orders of 2-3-file bundles); Coq checks that each recorded "
-              "trace is accepted by the model and evaluates the specification, results and function arguments must equal it; the "
-              "thorough tier repeats this on process pools through a multiprocessing.Manager."),
+              "secondary once in order of first appearance, delivers every matched pair and evicts after the last use. In every "
+              "reachable state the i-th value handed to the caller is the value of the i-th task and does not change when the other "
+              "tasks of the stream are replaced (task_results_independent, bundle_results_independent: no state shared between "
+              "tasks). Bundles read through the nested collect have an explicit model (bundle_task_result, bundle_refines_task, "
+              "bundle_collect_any_member_order, bundle_read_warning_local, bundle_arg_is_member_list, bundle_singleton_arg): a "
+              "bundle is warning + None iff error_to_warning and a member is unreadable (or nothing is left to hand on), otherwise "
+              "the function applied to the LIST of the members' contents in member order - one entry per member, for a one-file "
+              "bundle the one-element list, not the bare content - independent of the completion order of the member reads. Tie: "
+              "the real FileSet.map / imap / collect / icollect / align with FORCED completion orders (all orders for <= 4 files "
+              "quick / <= 6 thorough, failing readers on every subset, None contents, all member patterns and member orders of "
+              "2-3-file bundles, directed one-file bundles via files= and bundle=n, gzip-compressed files with the same base name in "
+              "different directories read while a later task decompresses and finishes); Coq checks that each recorded trace is "
+              "accepted by the model and evaluates the specification; results, function arguments (kind bare/list, length, entries "
+              "- compared in Coq, observed_arg_agrees_iff) must equal the model's and contents must be those of the task's own "
+              "files; the thorough tier repeats this on process pools through a multiprocessing.Manager."),
         note=COMMON_NOTE + " concurrent.futures / threading / multiprocessing (fork, pickling) are modelled by the transition system (hypothesis), exercised by forced "
              "schedules, not verified; real OS scheduling cannot be exhibited by the model; warnings raised on process pools are not counted.",
         technique="Coq proof (invariants by induction over arbitrary action traces of a transition system; explicit bundle model refining the task model) + trace-acceptance correspondence under forced schedules, thread and process pools",
